@@ -62,3 +62,18 @@ func TestProbeHang(t *testing.T) {
 		fmt.Println(f.Msg)
 	}
 }
+
+func TestProbeChild(t *testing.T) {
+	raw := os.Getenv("PROBE_RAW")
+	if raw == "" {
+		t.Skip()
+	}
+	for _, q := range strings.Split(raw, ";;") {
+		class, f := runInChild(q)
+		fmt.Printf("%s\n  -> %s", q, class)
+		if f != nil {
+			fmt.Printf(" %s: %.600s", f.Sig, f.Msg)
+		}
+		fmt.Println()
+	}
+}
